@@ -819,4 +819,108 @@ def sxrun (s : Nat) : SOPx → List SXOp → Option SOPx
     | none => none
     | some (p', _) => sxrun s p' ops
 
+
+/-! ## 64-bit ADDRESSES: the arena sits at address `base`, pointers wrap modulo 2⁶⁴
+
+Everything above computes with offsets from `__malloc_heap_start`.  The C code
+computes with 64-bit pointers: `__brkval += len + sizeof(size_t)` (malloc, step 3),
+`cp = (char *)ptr + len; if (cp < cp1) return 0;` (realloc).  `base` = the address of
+`__malloc_heap_start`; the address of offset `x` is `(base + x) mod 2⁶⁴`.
+After `fix: malloc() refuses a request that would move the break across the top of
+the address space` step 3 reads
+```
+if (__malloc_heap_end != 0) { … }
+else if (len > SIZE_MAX - sizeof(size_t) || len + sizeof(size_t) > SIZE_MAX - (size_t)__brkval) return 0;
+``` -/
+
+/-- malloc reaches step 3 (no exact fit, no larger chunk on the free list) -/
+def reachesStep3 (cfg : Cfg) (h : Heap) (len0 : Nat) : Bool :=
+  match scan (minLen (roundLen cfg.W len0)) h.flp 0 0 with
+  | .inl _ => false
+  | .inr (s, _) => s == 0
+
+/-- `len > SIZE_MAX - sizeof(size_t) || len + sizeof(size_t) > SIZE_MAX - (size_t)__brkval`
+(all in `size_t`; `__brkval` = `base + brk`, which is `__malloc_heap_start` when `__brkval` was still 0) -/
+def brkWraps (base : Nat) (h : Heap) (len : Nat) : Bool :=
+  len > SIZE_MAX - 8 || len + 8 > SIZE_MAX - (base + h.brk)
+
+/-- the request is refused by that test -/
+def mallocRefusesA (base : Nat) (cfg : Cfg) (h : Heap) (len0 : Nat) : Bool :=
+  cfg.lim == 0 && reachesStep3 cfg h len0 && brkWraps base h (minLen (roundLen cfg.W len0))
+
+/-- `malloc` with 64-bit sizes and 64-bit addresses (what the driver runs) -/
+def mallocA (base : Nat) (cfg : Cfg) (h : Heap) (len0 : Nat) : Res :=
+  if len0 % cfg.W ≠ 0 ∧ len0 > SIZE_MAX - (cfg.W - len0 % cfg.W) then ⟨h, none, []⟩
+  else if mallocRefusesA base cfg h len0 then ⟨h, none, []⟩
+  else malloc cfg h len0
+
+/-- malloc as it was before that fix: `fp1 = __brkval; __brkval += len + sizeof(size_t)` on a
+64-bit pointer, no test.  The new break is kept as an offset from `base` modulo 2⁶⁴. -/
+def mallocOrigA (base : Nat) (cfg : Cfg) (h : Heap) (len0 : Nat) : Res :=
+  if cfg.lim = 0 ∧ reachesStep3 cfg h len0 = true then
+    let len := minLen (roundLen cfg.W len0)
+    let newBrkAddr := (base + h.brk + (len + 8) % 2 ^ 64) % 2 ^ 64
+    ⟨{ h with brk := (newBrkAddr + 2 ^ 64 - base) % 2 ^ 64, live := (h.brk, len) :: h.live },
+      some (h.brk + 8), [.w h.brk 8]⟩
+  else malloc cfg h len0
+
+/-- realloc's wrap test on 64-bit pointers: `cp = (char *)ptr + len; if (cp < cp1) return 0;`
+with `cp1 = ptr - sizeof(size_t)` -/
+def reallocWrapTest (base p len : Nat) : Bool :=
+  (base + p + len) % 2 ^ 64 < base + p - 8
+
+/-- the request reaches the `malloc(len)` call at the end of realloc (the block has to move) -/
+def reachesMove (cfg : Cfg) (h : Heap) (p len : Nat) : Bool :=
+  match lookup (p - 8) h.live with
+  | none => false
+  | some sz =>
+    if len ≤ sz then false
+    else match growScan (p + sz) (len - sz) h.flp 0 with
+      | .inl _ => false
+      | .inr s => !(h.brk == p + sz && len > s)
+
+/-- `realloc` with 64-bit sizes and 64-bit addresses (what the driver runs): the rounding test,
+the pointer wrap test, and `malloc`'s refusal on the move path; otherwise the routine above -/
+def reallocA (base : Nat) (cfg : Cfg) (h : Heap) (ptr : Option Nat) (len0 : Nat) : Option Res :=
+  if len0 % cfg.W ≠ 0 ∧ len0 > SIZE_MAX - (cfg.W - len0 % cfg.W) then some ⟨h, none, []⟩
+  else
+    let len := minLen (roundLen cfg.W len0)
+    match ptr with
+    | none => some (mallocA base cfg h len)
+    | some p =>
+      if reallocWrapTest base p len then some ⟨h, none, []⟩
+      else if reachesMove cfg h p len && mallocRefusesA base cfg h len then some ⟨h, none, []⟩
+      else realloc cfg h (some p) len0
+
+def stepA (base : Nat) (cfg : Cfg) (h : Heap) : Op → Option Res
+  | .malloc n => some (mallocA base cfg h n)
+  | .free none => some ⟨h, none, []⟩
+  | .free (some p) => free h p
+  | .realloc p n => reallocA base cfg h p n
+
+def runA (base : Nat) (cfg : Cfg) : Heap → List Op → Option Heap
+  | h, [] => some h
+  | h, op :: ops =>
+    match stepA base cfg h op with
+    | none => none
+    | some r => runA base cfg r.h ops
+
+/-! ## pool zones the precondition of `pool_engage` excludes (what the loop does there) -/
+
+/-- `pool_engage` of a zone that OVERLAPS cells already engaged: nothing in the code notices -/
+def engageTwice (size elemsz : Nat) : Pool := (Pool.init.engage size elemsz).engageAt 0 size elemsz
+
+
+/-! ## the first statement of malloc / free / realloc: `if (critical_context_level() > 0) abort();` -/
+
+/-- a request made at critical-context level `lvl`: `none` = `abort()`, otherwise the request -/
+def stepCtx (lvl : Nat) (base : Nat) (cfg : Cfg) (h : Heap) (op : Op) : Option (Option Res) :=
+  match op with
+  | .free none => some (some ⟨h, none, []⟩)          -- `if (p == 0) return;` comes first in free
+  | _ => if lvl > 0 then none else some (stepA base cfg h op)
+
+/-- `void *cell(int i) { return (char *)_zone + _elemsz * i; }` (offset from the zone);
+`unlinked_iterator::operator*` = `cell(_num)` -/
+def IPool.cell (p : IPool) (i : Nat) : Nat := p.elemsz * i
+
 end Igris.C10
